@@ -247,7 +247,7 @@ class World:
         if k == "global":
             return ["return %s%s" % (self.q(e["pkg"], frm), e["name"])]
         if k == "desc":
-            return ['return "desc:" + reg.Who((*%s)(nil))' % self.ty(e["t"], frm)]
+            return ['return "desc:" + reg.Who(%s, (*%s)(nil))' % (json.dumps(self.gid), self.ty(e["t"], frm))]
         if k == "gothunk":
             return ["return Go%d()" % e["site"]]
         if k == "wrapper":
@@ -336,7 +336,7 @@ class World:
                  "func N(sel int) string { return %s }" % lit("@%s.N" % p), ""]
             c += self.fn_with_tree("func Cf(sel int) string", lambda sfx: lit("@%s.Cf%s" % (p, sfx))) + [""]
             chunks.append(("funcs", c))
-            who = lambda v: "reg.Who((*%s)(nil))" % v
+            who = lambda v: "reg.Who(%s, (*%s)(nil))" % (lit(self.gid), v)
             c = self.fn_with_tree("func F[X any](sel int) string",
                                   lambda sfx: "%s + %s + %s" % (lit("@%s.F[" % p), who("X"), lit("]" + sfx))) + [""]
             c += ["func F2[X, Y any](sel int) string {",
@@ -385,7 +385,7 @@ class World:
                     used.add(x)
         c = ["func Setup() {"]
         for t, tok in regs_top:
-            c.append("\treg.Register((*%s)(nil), %s)" % (self.ty(t, p), lit(tok)))
+            c.append("\treg.Register(%s, (*%s)(nil), %s)" % (lit(self.gid), self.ty(t, p), lit(tok)))
         c += ["\tLf(-1)", "\tLg(-1)", "}", ""]
         chunks.append(("setup", c))
         c = ["func Probe(i int) string {", "\tswitch i {"]
@@ -460,7 +460,7 @@ class World:
             out.append("%s}" % pad)
             out.append("%sif i == -1 {" % pad)
             for t, tok in regs_local.get(scope, []):
-                out.append("%s\treg.Register((*%s)(nil), %s)" % (pad, self.ty(t, p), json.dumps(tok)))
+                out.append("%s\treg.Register(%s, (*%s)(nil), %s)" % (pad, json.dumps(self.gid), self.ty(t, p), json.dumps(tok)))
             out.append("%s}" % pad)
             out.append("%sswitch i {" % pad)
             for idx, stmts in local_cases.get(scope, []):
@@ -481,19 +481,20 @@ REG_SRC = """package reg
 type I interface{ M(sel int) string }
 
 type entry struct {
+	grp string
 	v   any
 	tok string
 }
 
 var tab []entry
 
-// Register associates the dynamic type of v (a typed nil pointer) with a token.
-func Register(v any, tok string) { tab = append(tab, entry{v, tok}) }
+// Register associates, within group grp, the dynamic type of v (a typed nil pointer) with a token.
+func Register(grp string, v any, tok string) { tab = append(tab, entry{grp, v, tok}) }
 
-// Who returns the token registered for the dynamic type of v.
-func Who(v any) string {
+// Who returns the token registered in group grp for the dynamic type of v.
+func Who(grp string, v any) string {
 	for _, e := range tab {
-		if e.v == v {
+		if e.grp == grp && e.v == v {
 			return e.tok
 		}
 	}
